@@ -109,3 +109,102 @@ Proof.
     apply andb_prop in H as [H1 H2].
     rewrite split_lines_canonical_app by assumption. rewrite IH by assumption. reflexivity.
 Qed.
+
+(* ---------------------------------------------------------------- split_lines on arbitrary text *)
+Lemma canon_cons c s : s <> "" -> canonical (String c s) = negb (Ascii.eqb c LF) && canonical s.
+Proof. destruct s; [contradiction|reflexivity]. Qed.
+
+Lemma split_nonempty s : Forall (fun l => l <> "") (split_lines s).
+Proof.
+  induction s as [|c s IH]; [constructor|]. simpl. destruct (Ascii.eqb c LF).
+  - constructor; [discriminate|assumption].
+  - destruct (split_lines s) as [|l r]; constructor; try discriminate.
+    + constructor.
+    + inversion IH; assumption.
+Qed.
+
+Lemma concat_split s : concat_lines (split_lines s) = s.
+Proof.
+  induction s as [|c s IH]; [reflexivity|]. simpl. destruct (Ascii.eqb c LF) eqn:E.
+  - apply Ascii.eqb_eq in E. subst c. rewrite concat_lines_cons, IH. reflexivity.
+  - destruct (split_lines s) as [|l r] eqn:Es.
+    + unfold concat_lines in IH. simpl in IH. subst s. reflexivity.
+    + rewrite concat_lines_cons in *. simpl. rewrite IH. reflexivity.
+Qed.
+
+Lemma lines_shape_single l : lines_shape [l] = last_ok l.
+Proof. reflexivity. Qed.
+
+Lemma lines_shape_cons2 x y r : lines_shape (x :: y :: r) = canonical x && lines_shape (y :: r).
+Proof. reflexivity. Qed.
+
+Lemma last_ok_cons c l : Ascii.eqb c LF = false -> l <> "" -> last_ok l = true -> last_ok (String c l) = true.
+Proof.
+  intros Hc Hne H. unfold last_ok in *. rewrite canon_cons by assumption. rewrite Hc. simpl.
+  apply orb_prop in H as [H|H]; [rewrite H; reflexivity|].
+  apply andb_prop in H as [H1 H2]. cbn [no_char]. rewrite Hc, H1. simpl. apply orb_true_r.
+Qed.
+
+Lemma split_shape s : lines_shape (split_lines s) = true.
+Proof.
+  induction s as [|c s IH]; [reflexivity|]. simpl. destruct (Ascii.eqb c LF) eqn:E.
+  - destruct (split_lines s) as [|y r].
+    + rewrite lines_shape_single. unfold last_ok. simpl. rewrite E. reflexivity.
+    + rewrite lines_shape_cons2, IH. simpl. rewrite E. reflexivity.
+  - pose proof (split_nonempty s) as Hn. destruct (split_lines s) as [|l r].
+    + rewrite lines_shape_single. unfold last_ok. simpl. rewrite E. reflexivity.
+    + inversion Hn as [|? ? Hl Hr]; subst. destruct r as [|y r'].
+      * rewrite lines_shape_single in *. apply last_ok_cons; assumption.
+      * rewrite lines_shape_cons2 in *. apply andb_prop in IH as [H1 H2].
+        rewrite canon_cons by assumption. rewrite E, H1, H2. reflexivity.
+Qed.
+
+Lemma ends_lf_cons c s : s <> "" -> ends_lf (String c s) = ends_lf s.
+Proof. destruct s; [contradiction|reflexivity]. Qed.
+
+Lemma split_nil_inv s : split_lines s = [] -> s = "".
+Proof. intros H. rewrite <- (concat_split s), H. reflexivity. Qed.
+
+Lemma split_canonical s : ends_lf s = true -> forallb canonical (split_lines s) = true.
+Proof.
+  induction s as [|c s IH]; [discriminate|]. intros H. simpl. destruct (Ascii.eqb c LF) eqn:E.
+  - cbn [forallb canonical]. rewrite E. destruct s as [|d s']; [reflexivity|].
+    rewrite ends_lf_cons in H by discriminate. apply IH. assumption.
+  - destruct s as [|d s']; [simpl in H; congruence|]. rewrite ends_lf_cons in H by discriminate.
+    specialize (IH H). pose proof (split_nonempty (String d s')) as Hn.
+    destruct (split_lines (String d s')) as [|l r] eqn:Es.
+    + apply split_nil_inv in Es. discriminate.
+    + inversion Hn as [|? ? Hl0 Hr0]; subst. simpl in IH. apply andb_prop in IH as [I1 I2].
+      cbn [forallb]. rewrite canon_cons by assumption. rewrite E, I1, I2. reflexivity.
+Qed.
+
+Lemma split_nochar x s : no_char x s = true -> forallb (no_char x) (split_lines s) = true.
+Proof.
+  induction s as [|c s IH]; [reflexivity|]. simpl. intros H. apply andb_prop in H as [H1 H2].
+  specialize (IH H2). destruct (Ascii.eqb c LF).
+  - simpl. rewrite H1, IH. reflexivity.
+  - destruct (split_lines s) as [|l r]; simpl in *.
+    + rewrite H1. reflexivity.
+    + apply andb_prop in IH as [I1 I2]. rewrite H1, I1, I2. reflexivity.
+Qed.
+
+Lemma concat_lines_app a b : concat_lines (a ++ b) = (concat_lines a ++ concat_lines b)%string.
+Proof.
+  induction a as [|x a IH]; [reflexivity|]. rewrite <- app_comm_cons, !concat_lines_cons, IH.
+  clear. induction x; simpl; congruence.
+Qed.
+
+Lemma tab4_empty_iff s : tab4 s = "" <-> s = "".
+Proof. destruct s as [|c s]; simpl; [tauto|]. destruct (Ascii.eqb c TAB); split; discriminate. Qed.
+
+Lemma ends_lf_tab4 s : ends_lf (tab4 s) = ends_lf s.
+Proof.
+  induction s as [|c s IH]; [reflexivity|].
+  destruct s as [|d s'].
+  - simpl. destruct (Ascii.eqb c TAB) eqn:E; [|reflexivity]. apply Ascii.eqb_eq in E. subst. reflexivity.
+  - remember (String d s') as t. assert (Ht : t <> "") by (subst; discriminate).
+    assert (Ht4 : tab4 t <> "") by (intros H; apply Ht; apply tab4_empty_iff; exact H).
+    rewrite (ends_lf_cons c t Ht). simpl tab4. destruct (Ascii.eqb c TAB).
+    + rewrite !ends_lf_cons by (assumption || discriminate). exact IH.
+    + rewrite ends_lf_cons by assumption. exact IH.
+Qed.
